@@ -286,7 +286,6 @@ def coq_header(encs):
     lines.append("Fixpoint zs_eqb (l m : list Z) : bool := match l, m with [] , [] => true | x :: l', y :: m' => Z.eqb x y && zs_eqb l' m' | _, _ => false end.")
     lines.append("Definition row_impl (a : term) (obs : list Z) : bool := zs_eqb (map (struct_cmp fr a) pool) obs.")
     lines.append("Definition row_spec (a : term) (exp : list Z) : bool := zs_eqb (map (fun b => cmpZ (plg_cmp (denote a) (denote b))) pool) exp.")
-    lines.append("Definition row_swi (a : term) (exp : list Z) : bool := zs_eqb (map (fun b => cmpZ (std_cmp (denote a) (denote b))) pool) exp.")
     lines.append("Definition tk (c : Z) : text := order_token (if Z.ltb c 0 then Lt else if Z.eqb c 0 then Eq else Gt).")
     # engine-level observation of one pair: token returned by compare/3, which of the three given tokens succeed,
     # and the six comparison builtins
@@ -503,7 +502,8 @@ def run(ctx):
     M = []
     for rows in pl.pmap(direct_rows, chunks, chunksize=1):
         M.extend(rows)
-    E = [[spec_cmp(a, b) for b in encs] for a in encs]
+    dens = [denote(e) for e in encs]
+    E = [[std_cmp(a, b, True) for b in dens] for a in dens]
     found = []
     for i in range(n):
         for j in range(n):
@@ -523,7 +523,8 @@ def run(ctx):
     ctx.cov["pairs_direct"] = n * n
     ctx.cov["pairs_direct_agree_with_order"] = n * n - len(found)
     ctx.cov["pairs_where_swi7_string_position_differs(recorded,not judged)"] = sum(
-        1 for i in range(n) for j in range(n) if std_cmp(denote(encs[i]), denote(encs[j]), False) != E[i][j])
+        1 for i in range(n) if has_string(encs[i]) or True for j in range(n)
+        if (has_string(encs[i]) or has_string(encs[j])) and std_cmp(dens[i], dens[j], False) != E[i][j])
     report(ctx, found, None)
     ctx.log("direct: %d pairs, %d disagree with the order" % (n * n, len(found)))
 
@@ -693,10 +694,21 @@ def run(ctx):
     ctx.log("sort: %d lists, %d disagree with the spec" % (len(lists), nbad))
 
     # ---- 8. evaluate the Coq side: generated model vs observations, harness reference vs Coq definitions
+    # rows cost ~n struct_cmp evaluations each, the other cases a handful: spread the rows evenly over the shards
+    heavy = [c for c in coq_cases if c[0].startswith("row")]
+    light = [c for c in coq_cases if not c[0].startswith("row")]
+    coq_cases = []
+    per = (len(light) // len(heavy) + 1) if heavy else 0
+    li = 0
+    for h in heavy:
+        coq_cases.append(h)
+        coq_cases.extend(light[li:li + per])
+        li += per
+    coq_cases.extend(light[li:])
     terms = [c[2] for c in coq_cases]
-    shard = len(terms) if ctx.tier == "quick" else max(50, (len(terms) + 11) // 12)
+    shard = len(terms) if ctx.tier == "quick" else max(50, (len(terms) + 23) // 24)
     try:
-        bad = ctx.coq_failing(hdr, terms, name="all", shard=max(1, shard), timeout=1500, jobs=6)
+        bad = ctx.coq_failing(hdr, terms, name="all", shard=max(1, shard), timeout=3000, jobs=6)
     except RuntimeError as e:
         ctx.broken.append("correspondence:C15 cases do not evaluate in Coq")
         ctx.notes.append(str(e))
